@@ -706,6 +706,66 @@ impl CpcSketch {
     }
 }
 
+/// Verification hook (feature `verif-hooks`): internal state of a [`CpcSketch`].
+#[cfg(feature = "verif-hooks")]
+#[derive(Debug, Clone, PartialEq)]
+pub struct VerifCpcState {
+    /// Window offset.
+    pub window_offset: u8,
+    /// First interesting column.
+    pub first_interesting_column: u8,
+    /// Flavor: 0 = Empty, 1 = Sparse, 2 = Hybrid, 3 = Pinned, 4 = Sliding.
+    pub flavor: u8,
+    /// Merge flag (HIP state invalid).
+    pub merge_flag: bool,
+    /// KXP register.
+    pub kxp: f64,
+    /// HIP accumulator.
+    pub hip_est_accum: f64,
+    /// Whether the sliding window is allocated.
+    pub has_window: bool,
+    /// Number of valid entries in the surprising-value table.
+    pub table_entries: u32,
+    /// Number of slots of the surprising-value table (0 if absent).
+    pub table_slots: usize,
+}
+
+#[cfg(feature = "verif-hooks")]
+impl CpcSketch {
+    /// Verification hook: offers a raw `(row << 6) | col` coupon through the same path as
+    /// [`CpcSketch::update`] takes after hashing.
+    pub fn verif_row_col_update(&mut self, row_col: u32) {
+        self.row_col_update(row_col);
+    }
+
+    /// Verification hook: the k x 64 bit matrix the sketch represents.
+    pub fn verif_bit_matrix(&self) -> Vec<u64> {
+        self.build_bit_matrix()
+    }
+
+    /// Verification hook: dumps internal state.
+    pub fn verif_state(&self) -> VerifCpcState {
+        let (table_entries, table_slots) = match &self.surprising_value_table {
+            Some(t) => (
+                t.slots().iter().filter(|&&s| s != u32::MAX).count() as u32,
+                t.slots().len(),
+            ),
+            None => (0, 0),
+        };
+        VerifCpcState {
+            window_offset: self.window_offset,
+            first_interesting_column: self.first_interesting_column,
+            flavor: self.flavor() as u8,
+            merge_flag: self.merge_flag,
+            kxp: self.kxp,
+            hip_est_accum: self.hip_est_accum,
+            has_window: !self.sliding_window.is_empty(),
+            table_entries,
+            table_slots,
+        }
+    }
+}
+
 // testing methods
 impl CpcSketch {
     /// Validate this sketch is valid.
